@@ -408,4 +408,28 @@ example : let c := forEachCfg 3 0 none (fun i => i == 1)
     let s := runPrioA c (actors c.n).reverse 400 (init c)
     c.workers = 1 ∧ result s = some (.panic (.mapper 1)) ∧ aliveCount c s = 0 := by decide
 
+/-- the `repanic()` in ForEach's closed-collector branch (model: `CPc.check`) is needed: under a schedule in which
+the caller is slow, the generator's panic is buffered, the collector is closed, the caller takes the closed
+collector first and only the check re-raises the panic (the buffer is emptied by `check`, not by `callerPanic`). -/
+example : let c := forEachCfg 0 1 (some 0) (fun _ => false)
+    let s := runPrioA c [.gen, .disp, .dispCtx, .dispDone, .red, .callerOut, .caller, .callerPanic] 100 (init c)
+    result s = some (.panic .gen) ∧ s.consumed = true ∧ aliveCount c s = 0 := by decide
+
+/-! ### end-to-end: options → core (call site → wrapper → core) -/
+
+/-- **Mapper cap for every option list.**  Whatever options are passed (none, several, arguments < 1), the number of
+running mappers never exceeds the configured number `workersOf ws` (the last WithWorkers, clamped; 16 without one). -/
+theorem cap_for_every_option_list (ws : List Int) (c : Cfg) (hc : c.workers = workersOf ws) (s : St) (h : ReachA c s) :
+    cnt mRunning s.mp c.n ≤ workersOf ws := by
+  have := (mapper_cap c s (reachA_reach h)).1
+  omega
+
+/-- **Clean termination for every option list**: no option list can configure a call that deadlocks or leaves a
+goroutine behind (`1 ≤ workersOf ws` always). -/
+theorem ends_clean_for_every_option_list (ws : List Int) (c : Cfg) (hc : c.workers = workersOf ws) (hf : c.fixed = true)
+    (hr : (writesOf c.rscript).length ≤ 2) (s : St) (h : ReachA c s) :
+    ∃ s', StepsA c s s' ∧ (∀ a, stepA c s' a = none) ∧ result s' ≠ none ∧ aliveCount c s' = 0 := by
+  obtain ⟨s', h1, _, h3, h4, h5⟩ := every_run_ends_clean_now c hf (by rw [hc]; exact workersOf_ge_one ws) hr s h
+  exact ⟨s', h1, h3, h4, h5⟩
+
 end GoZero.C10
